@@ -4,7 +4,7 @@ set -euo pipefail
 V=/verif
 SRC=$(ls -d /root/go/pkg/mod/github.com/influxdata/flux@v0.191.0)
 DST=$V/build/flux
-if [ -f "$DST/.stub-ok" ]; then exit 0; fi
+if [ -f "$DST/.stub-ok-2" ]; then exit 0; fi
 rm -rf "$DST"; mkdir -p "$V/build"
 cp -r "$SRC" "$DST"
 chmod -R u+w "$DST"
@@ -16,4 +16,4 @@ rm -rf "$L/internal" "$L/testdata"
 cp "$V/setup/libflux_stub.go.txt" "$L/stub.go"
 # drop every _test.go and testdata of the copy: never built, saves disk
 find "$DST" -name '*_test.go' -delete
-touch "$DST/.stub-ok"
+touch "$DST/.stub-ok-2"
